@@ -157,6 +157,32 @@ func c05Dispatch(c *Ctx, p *Prog) {
 					}
 				}
 			})
+			if !okFlag {
+				// object form: the comparison key == "/gomaxprocs" is stored into a bool field of an extractor object
+				// (by the constructor or a function it hands the key to); that the -N form is taken only under that
+				// field is C05/R4's part
+				for _, g := range staticReach([]*ssa.Function{ctor}, bprocPkg) {
+					eachInstr(g, func(_ *ssa.BasicBlock, in ssa.Instruction) {
+						st2, ok := in.(*ssa.Store)
+						if !ok {
+							return
+						}
+						bo, ok := st2.Val.(*ssa.BinOp)
+						if !ok || bo.Op != token.EQL {
+							return
+						}
+						if s, ok := constString(bo.Y); !ok || s != "/gomaxprocs" {
+							return
+						}
+						if _, isParam := bo.X.(*ssa.Parameter); !isParam {
+							return
+						}
+						if f, _ := fieldOfAddr(st2.Addr); f != nil && isBoolean(f.Type()) {
+							okFlag = true
+						}
+					})
+				}
+			}
 			if !okFlag && gmpClosure != nil && generalNotGmp {
 				// construction-time form: /gomaxprocs has its own closure that knows the -N form, every other key gets
 				// one that does not
@@ -574,6 +600,7 @@ func c05Lookup(c *Ctx, p *Prog, R string) {
 	// the scan: the function of benchproc with a loop that tests bytes.HasPrefix / CutPrefix against a []byte parameter
 	var fn *ssa.Function
 	var prefix *ssa.Parameter
+	var prefixF *types.Var
 	for _, f := range p.Funcs("benchproc") {
 		if f.Parent() != nil || len(naturalLoops(f)) == 0 {
 			continue
@@ -582,6 +609,10 @@ func c05Lookup(c *Ctx, p *Prog, R string) {
 			if prm, ok := call.Common().Args[1].(*ssa.Parameter); ok && prm.Parent() == f {
 				fn, prefix = f, prm
 			}
+			// or a field of the receiver (an extractor object)
+			if fld, base := loadOfField(call.Common().Args[1]); fld != nil && len(f.Params) > 0 && base == ssa.Value(f.Params[0]) && f.Signature.Recv() != nil {
+				fn, prefixF = f, fld
+			}
 		}
 	}
 	if fn == nil {
@@ -589,6 +620,17 @@ func c05Lookup(c *Ctx, p *Prog, R string) {
 		return
 	}
 	site := p.pos(fn.Pos())
+	isPrefix := func(v ssa.Value) bool {
+		if prefix != nil && v == ssa.Value(prefix) {
+			return true
+		}
+		if prefixF != nil {
+			if f, base := loadOfField(v); f == prefixF && base == ssa.Value(fn.Params[0]) {
+				return true
+			}
+		}
+		return false
+	}
 	// the search loop: forward range over the parts, returns at the first HasPrefix match with part[len(prefix):]
 	okFwd, okRet := false, false
 	for _, lp := range naturalLoops(fn) {
@@ -623,7 +665,7 @@ func c05Lookup(c *Ctx, p *Prog, R string) {
 				}
 				// val, ok := bytes.CutPrefix(part, prefix); if ok { return val }
 				if ex, isEx := retVal(ret, 0).(*ssa.Extract); isEx && ex.Index == 0 {
-					if cc, isCall := ex.Tuple.(*ssa.Call); isCall && objIs(calleeObj(&cc.Call), "bytes", "", "CutPrefix") && cc.Call.Args[1] == ssa.Value(prefix) {
+					if cc, isCall := ex.Tuple.(*ssa.Call); isCall && objIs(calleeObj(&cc.Call), "bytes", "", "CutPrefix") && isPrefix(cc.Call.Args[1]) {
 						for _, f := range factsAt(s) {
 							if ok2, isEx2 := f.Cond.(*ssa.Extract); isEx2 && f.True && ok2.Index == 1 && ok2.Tuple == cc {
 								okRet = true
@@ -636,9 +678,9 @@ func c05Lookup(c *Ctx, p *Prog, R string) {
 					continue
 				}
 				if call, ok := sl.Low.(*ssa.Call); ok {
-					if bi, ok := call.Call.Value.(*ssa.Builtin); ok && bi.Name() == "len" && call.Call.Args[0] == ssa.Value(prefix) {
+					if bi, ok := call.Call.Value.(*ssa.Builtin); ok && bi.Name() == "len" && isPrefix(call.Call.Args[0]) {
 						for _, f := range factsAt(s) {
-							if hc, ok := f.Cond.(*ssa.Call); ok && f.True && objIs(calleeObj(&hc.Call), "bytes", "", "HasPrefix") && hc.Call.Args[1] == ssa.Value(prefix) {
+							if hc, ok := f.Cond.(*ssa.Call); ok && f.True && objIs(calleeObj(&hc.Call), "bytes", "", "HasPrefix") && isPrefix(hc.Call.Args[1]) {
 								okRet = true
 							}
 						}
@@ -728,9 +770,15 @@ func c05Lookup(c *Ctx, p *Prog, R string) {
 				continue
 			}
 			hasFlag, hasDash := false, false
+			flagIsField := false
 			for _, f := range factsAt(b) {
 				if flag != nil && f.Cond == ssa.Value(flag) && f.True {
 					hasFlag = true
+				}
+				// a bool field of the receiver (an extractor object built for one key)
+				if fld, base := loadOfField(f.Cond); fld != nil && isBoolean(fld.Type()) && f.True && dfn.Signature.Recv() != nil && len(dfn.Params) > 0 && base == ssa.Value(dfn.Params[0]) {
+					hasFlag = true
+					flagIsField = true
 				}
 				if bo, ok := f.Cond.(*ssa.BinOp); ok && bo.Op == token.EQL && f.True {
 					if k, ok := constInt(bo.Y); ok && k == '-' {
@@ -753,7 +801,7 @@ func c05Lookup(c *Ctx, p *Prog, R string) {
 					}
 				}
 			}
-			if dfn != fn && flag == nil {
+			if dfn != fn && flag == nil && !flagIsField {
 				// used for /gomaxprocs only: decided by the constructor (C05/R1 checks the dispatch); here: it is not the
 				// scan function and nothing but closures of the extractor constructor call it
 				hasFlag = true
